@@ -365,6 +365,15 @@ namespace
                             {
                                 if (res->data<d_boolean, bool>())
                                 {
+                                    if (m_code.empty() && !runtime.context_active().can_suspend())
+                                    { // there is no body phase that could count this iteration
+                                        m_loop_count++;
+                                        auto max = runtime.configuration().max_loop_iterations_in_unscheduled;
+                                        if (max > 0 && m_loop_count >= max)
+                                        {
+                                            return result::ok;
+                                        }
+                                    }
                                     runtime.context_active().clear_values();
                                     frame.clear_value_scope();
                                     return m_code.empty() ? result::seek_start : result::exchange;
